@@ -1,0 +1,62 @@
+//go:build verif
+
+// Machine-checked contracts for govc (see /verif/DESIGN.md). Comments only;
+// compiled only with the build tag "verif".
+
+package httpendpoint
+
+// C18: one poll of one endpoint. Ghost logs: frs = FetchRuleSet calls, pr = config.ParseRules calls,
+// rsu = ruleSetsUpdated calls, smload/smstore/smdel = state map, onc/onu/ond = processor calls.
+
+//@ spec fetcherID(f RuleSetFetcher) string
+//@ iface (RuleSetFetcher).ID
+//@   props C18
+//@   pure
+//@   defines fetcherID(recv)
+
+//@ iface (RuleSetFetcher).FetchRuleSet
+//@   props C18
+//@   logged frs
+//@   ensures (ret1 == nil) == (ret0 != nil)
+//@   ensures onc.n == old(onc.n) && onu.n == old(onu.n) && ond.n == old(ond.n) && smstore.n == old(smstore.n) && smdel.n == old(smdel.n) && smload.n == old(smload.n) && rsu.n == old(rsu.n)
+
+// a response that was received but does not parse is an *internal* error (the caller keeps the loaded
+// version for those), unless it is empty (an emptied source is unloaded)
+//@ func (*ruleSetEndpoint).FetchRuleSet
+//@   props C18
+//@   ensures pr.n == old(pr.n) || pr.n == old(pr.n) + 1
+//@   ensures pr.n == old(pr.n) + 1 && pr.ret1[old(pr.n)] != nil ==> ret1 != nil && Is(ret1, heimdall.ErrInternal) && (Is(ret1, config2.ErrEmptyRuleSet) == Is(pr.ret1[old(pr.n)], config2.ErrEmptyRuleSet))
+//@   ensures pr.n == old(pr.n) + 1 && pr.ret1[old(pr.n)] == nil ==> ret1 == nil && ret0 == pr.ret0[old(pr.n)]
+//@   ensures pr.n == old(pr.n) ==> ret1 != nil
+
+// reaction to a fetched (or, for a failing / emptied endpoint, empty) rule set, relative to what
+// the state map says about the endpoint
+//@ func (*provider).ruleSetsUpdated
+//@   props C18
+//@   logged rsu
+//@   requires ruleSet != nil
+//@   ensures smload.n == old(smload.n) + 1 && smload.arg0[old(smload.n)] == &p.states && smload.arg1[old(smload.n)] == iface(stateID)
+//@   ensures smload.ret1[old(smload.n)] && old(len(ruleSet.Rules)) == 0 ==> ond.n == old(ond.n) + 1 && ond.arg1[old(ond.n)] == ruleSet && ret0 == ond.ret0[old(ond.n)] && onc.n == old(onc.n) && onu.n == old(onu.n) && smstore.n == old(smstore.n)
+//@   ensures smload.ret1[old(smload.n)] && old(len(ruleSet.Rules)) == 0 && ret0 == nil ==> smdel.n == old(smdel.n) + 1 && smdel.arg0[old(smdel.n)] == &p.states && smdel.arg1[old(smdel.n)] == iface(stateID)
+//@   ensures smload.ret1[old(smload.n)] && old(len(ruleSet.Rules)) != 0 ==> beq.n == old(beq.n) + 1 && ond.n == old(ond.n) && onc.n == old(onc.n) && smdel.n == old(smdel.n)
+//@   ensures smload.ret1[old(smload.n)] && old(len(ruleSet.Rules)) != 0 && !beq.ret0[old(beq.n)] ==> onu.n == old(onu.n) + 1 && onu.arg1[old(onu.n)] == ruleSet && ret0 == onu.ret0[old(onu.n)]
+//@   ensures smload.ret1[old(smload.n)] && old(len(ruleSet.Rules)) != 0 && beq.ret0[old(beq.n)] ==> onu.n == old(onu.n) && ret0 == nil && smstore.n == old(smstore.n)
+//@   ensures !smload.ret1[old(smload.n)] && old(len(ruleSet.Rules)) != 0 ==> onc.n == old(onc.n) + 1 && onc.arg1[old(onc.n)] == ruleSet && ret0 == onc.ret0[old(onc.n)] && onu.n == old(onu.n) && ond.n == old(ond.n) && smdel.n == old(smdel.n)
+//@   ensures !smload.ret1[old(smload.n)] && old(len(ruleSet.Rules)) == 0 ==> onc.n == old(onc.n) && onu.n == old(onu.n) && ond.n == old(ond.n) && smstore.n == old(smstore.n) && smdel.n == old(smdel.n) && ret0 == nil
+//@   ensures ret0 != nil ==> smstore.n == old(smstore.n) && smdel.n == old(smdel.n)
+//@   ensures ret0 == nil && (onc.n > old(onc.n) || onu.n > old(onu.n)) ==> smstore.n == old(smstore.n) + 1 && smstore.arg0[old(smstore.n)] == &p.states && smstore.arg1[old(smstore.n)] == iface(stateID)
+//@   assert at call Equal#1: callarg0 == unbox(smload.ret0[smload.n - 1], "[]byte") && callarg1 == ruleSet.Hash
+//@   assert at call Store#1: callarg2 == iface(ruleSet.Hash)
+//@   assert at call Store#2: callarg2 == iface(ruleSet.Hash)
+
+// one poll: an invalid answer (internal / configuration error that is not "empty") changes nothing;
+// a valid answer is applied; every other failure (communication error, not found, empty) is applied
+// as an empty rule set, i.e. unloads what was loaded from this endpoint
+//@ func (*provider).watchChanges
+//@   props C18
+//@   ensures frs.n == old(frs.n) + 1 && frs.arg0[old(frs.n)] == rsf
+//@   ensures frs.ret1[old(frs.n)] != nil && !Is(frs.ret1[old(frs.n)], context.Canceled) && !Is(frs.ret1[old(frs.n)], config2.ErrEmptyRuleSet) && (Is(frs.ret1[old(frs.n)], heimdall.ErrInternal) || Is(frs.ret1[old(frs.n)], heimdall.ErrConfiguration)) ==> ret0 != nil && rsu.n == old(rsu.n) && onc.n == old(onc.n) && onu.n == old(onu.n) && ond.n == old(ond.n) && smstore.n == old(smstore.n) && smdel.n == old(smdel.n)
+//@   ensures frs.ret1[old(frs.n)] != nil && Is(frs.ret1[old(frs.n)], context.Canceled) ==> ret0 == nil && rsu.n == old(rsu.n) && onc.n == old(onc.n) && onu.n == old(onu.n) && ond.n == old(ond.n)
+//@   ensures frs.ret1[old(frs.n)] == nil ==> rsu.n == old(rsu.n) + 1 && rsu.arg1[old(rsu.n)] == frs.ret0[old(frs.n)] && rsu.arg2[old(rsu.n)] == fetcherID(rsf) && ret0 == nil
+//@   ensures frs.ret1[old(frs.n)] != nil && !Is(frs.ret1[old(frs.n)], context.Canceled) && (Is(frs.ret1[old(frs.n)], config2.ErrEmptyRuleSet) || (!Is(frs.ret1[old(frs.n)], heimdall.ErrInternal) && !Is(frs.ret1[old(frs.n)], heimdall.ErrConfiguration))) ==> rsu.n == old(rsu.n) + 1 && rsu.arg2[old(rsu.n)] == fetcherID(rsf) && ret0 == nil
+//@   assert at call ruleSetsUpdated#1: callarg1 != nil && (frs.ret1[frs.n - 1] != nil ==> len(callarg1.Rules) == 0 && callarg1.MetaData.Source == "http_endpoint:" + fetcherID(rsf))
